@@ -398,15 +398,16 @@ type c32PowSpec struct {
 }
 
 type c32Case struct {
-	Fork        string      `json:"fork"`
-	Program     []string    `json:"program"`
-	GenesisFee  uint64      `json:"genesis_base_fee"`
-	Tx          c32TxSpec   `json:"tx"`
-	SecondTx    bool        `json:"second_tx,omitempty"`
-	Withdrawals []uint64    `json:"withdrawals_gwei,omitempty"` // alternating recipients E, W
-	Insert      bool        `json:"insert_into_blockchain,omitempty"`
-	ExactSender bool        `json:"sender_balance_exactly_max_cost,omitempty"`
-	Pow         *c32PowSpec `json:"pow_chain,omitempty"`
+	Fork        string        `json:"fork"`
+	Program     []string      `json:"program"`
+	GenesisFee  uint64        `json:"genesis_base_fee"`
+	Tx          c32TxSpec     `json:"tx"`
+	SecondTx    bool          `json:"second_tx,omitempty"`
+	Withdrawals []uint64      `json:"withdrawals_gwei,omitempty"` // alternating recipients E, W
+	Insert      bool          `json:"insert_into_blockchain,omitempty"`
+	ExactSender bool          `json:"sender_balance_exactly_max_cost,omitempty"`
+	Pow         *c32PowSpec   `json:"pow_chain,omitempty"`
+	Cross       *c32CrossSpec `json:"cross_transaction,omitempty"`
 }
 
 func c32BigPow10(n int64) *big.Int { return new(big.Int).Exp(big.NewInt(10), big.NewInt(n), nil) }
@@ -427,32 +428,40 @@ func c32FakeExp(factor, numerator, denominator *big.Int) *big.Int {
 
 // c32TrieBalances reads every account of the state trie at root straight from the trie database.
 func c32TrieBalances(db ethdb.Database, root common.Hash) (map[common.Hash]*big.Int, *big.Int, error) {
+	bal, total, _, err := c32TrieAccounts(db, root)
+	return bal, total, err
+}
+
+// c32TrieAccounts additionally returns the decoded accounts (nonce, code hash).
+func c32TrieAccounts(db ethdb.Database, root common.Hash) (map[common.Hash]*big.Int, *big.Int, map[common.Hash]types.StateAccount, error) {
 	tdb := triedb.NewDatabase(db, triedb.HashDefaults)
 	defer tdb.Close()
 	tr, err := trie.New(trie.StateTrieID(root), tdb)
 	if err != nil {
-		return nil, nil, err
+		return nil, nil, nil, err
 	}
 	nit, err := tr.NodeIterator(nil)
 	if err != nil {
-		return nil, nil, err
+		return nil, nil, nil, err
 	}
 	out := map[common.Hash]*big.Int{}
+	accs := map[common.Hash]types.StateAccount{}
 	total := new(big.Int)
 	it := trie.NewIterator(nit)
 	for it.Next() {
 		var acc types.StateAccount
 		if err := rlp.DecodeBytes(it.Value, &acc); err != nil {
-			return nil, nil, err
+			return nil, nil, nil, err
 		}
 		b := acc.Balance.ToBig()
 		out[common.BytesToHash(it.Key)] = b
+		accs[common.BytesToHash(it.Key)] = acc
 		total.Add(total, b)
 	}
 	if it.Err != nil {
-		return nil, nil, it.Err
+		return nil, nil, nil, it.Err
 	}
-	return out, total, nil
+	return out, total, accs, nil
 }
 
 type c32TxPlan struct {
@@ -460,6 +469,176 @@ type c32TxPlan struct {
 	from    common.Address
 	key     *ecdsa.PrivateKey
 	program bool // runs B's program (or the creation); otherwise a plain transfer to E
+	// custom transactions (cross-transaction part): explicit destination (nil = creation), calldata and model
+	custom bool
+	to     *common.Address
+	data   []byte
+	model  func(m *c32Model, senderNonce uint64) int
+}
+
+// c32CrossSpec: a contract created by the first transaction is acted upon by a later transaction.
+type c32CrossSpec struct {
+	Creator   string `json:"creator"` // tx | create | create2
+	CtorStore bool   `json:"constructor_writes_storage"`
+	Endowment uint64 `json:"endowment"`
+	Runtime   string `json:"runtime"`            // destruct_self | destruct_other | plain
+	Action    string `json:"second_transaction"` // call | call_then_fund | fund
+	Where     string `json:"where"`              // same_block | next_block
+}
+
+// c32Expect: what must be true of the created contract once the acting transaction has run.
+type c32Expect struct {
+	addr      common.Address
+	fromBlock int // index of the block holding the acting transaction
+	alive     bool
+	codeHash  common.Hash
+}
+
+var c32H = common.HexToAddress("0xa400000000000000000000000000000000000a0e") // helper: calls the created contract twice
+
+// c32CrossRuntime: with calldata the contract just accepts the value; without it performs its action.
+func c32CrossRuntime(kind string) []byte {
+	a := &c32Asm{}
+	a.op(vm.CALLDATASIZE)
+	a.b = append(a.b, byte(vm.PUSH1), 0)
+	patch := len(a.b) - 1
+	a.op(vm.JUMPI)
+	switch kind {
+	case "destruct_self":
+		a.op(vm.ADDRESS, vm.SELFDESTRUCT)
+	case "destruct_other":
+		a.pushAddr(c32E).op(vm.SELFDESTRUCT)
+	default:
+		a.op(vm.STOP)
+	}
+	a.b[patch] = byte(len(a.b))
+	a.op(vm.JUMPDEST, vm.STOP)
+	return a.b
+}
+
+// c32CrossInit: constructor (optionally one SSTORE) that deploys runtime.
+func c32CrossInit(store bool, runtime []byte) []byte {
+	a := &c32Asm{}
+	if store {
+		a.push(1).push(0).op(vm.SSTORE)
+	}
+	a.push(uint64(len(runtime)))
+	a.b = append(a.b, byte(vm.PUSH1), 0)
+	patch := len(a.b) - 1
+	a.push(0).op(vm.CODECOPY)
+	a.push(uint64(len(runtime))).push(0).op(vm.RETURN)
+	a.b[patch] = byte(len(a.b))
+	return append(a.b, runtime...)
+}
+
+// c32CrossFactory: code for B that creates the contract with CREATE / CREATE2 (salt 0x5a).
+func c32CrossFactory(create2 bool, endowment uint64, init []byte) []byte {
+	a := &c32Asm{}
+	a.push(uint64(len(init)))
+	a.b = append(a.b, byte(vm.PUSH2), 0, 0)
+	patch := len(a.b) - 2
+	a.push(0).op(vm.CODECOPY)
+	if create2 {
+		a.push(0x5a)
+	}
+	a.push(uint64(len(init))).push(0).push(endowment)
+	if create2 {
+		a.op(vm.CREATE2)
+	} else {
+		a.op(vm.CREATE)
+	}
+	a.op(vm.POP, vm.STOP)
+	a.b[patch], a.b[patch+1] = byte(len(a.b)>>8), byte(len(a.b))
+	return append(a.b, init...)
+}
+
+// c32CrossPlan builds the chain for a cross-transaction case.
+func c32CrossPlan(f c32Fork, c c32Case) (plans []c32BlockPlan, bCode []byte, extra types.GenesisAlloc, exp *c32Expect) {
+	x := c.Cross
+	runtime := c32CrossRuntime(x.Runtime)
+	init := c32CrossInit(x.CtorStore, runtime)
+	endow := new(big.Int).SetUint64(x.Endowment)
+	fee := c32TxSpec{Kind: "dynamic", Tip: 1, FeeCap: 1_000_000_000}
+	var addr common.Address
+	var txA c32TxPlan
+	switch x.Creator {
+	case "tx":
+		addr = crypto.CreateAddress(c32S, 0)
+		spec := fee
+		spec.Value = x.Endowment
+		txA = c32TxPlan{spec: spec, from: c32S, key: c32Key1, custom: true, to: nil, data: init, model: func(m *c32Model, nonce uint64) int {
+			a := crypto.CreateAddress(c32S, nonce)
+			m.transfer(c32S, a, endow)
+			m.created[a] = true
+			return c32Continue
+		}}
+	default:
+		create2 := x.Creator == "create2"
+		bCode = c32CrossFactory(create2, x.Endowment, init)
+		if create2 {
+			addr = crypto.CreateAddress2(c32B, common.Hash{31: 0x5a}, crypto.Keccak256(init))
+		} else {
+			addr = crypto.CreateAddress(c32B, 0)
+		}
+		created := addr
+		txA = c32TxPlan{spec: fee, from: c32S, key: c32Key1, custom: true, to: &c32B, model: func(m *c32Model, _ uint64) int {
+			m.nonce[c32B]++
+			m.transfer(c32B, created, endow)
+			m.created[created] = true
+			return c32Continue
+		}}
+	}
+	act := func(m *c32Model) {
+		switch x.Runtime {
+		case "destruct_self":
+			m.selfdestruct(addr, addr)
+		case "destruct_other":
+			m.selfdestruct(addr, c32E)
+		}
+	}
+	target := addr
+	var txB c32TxPlan
+	switch x.Action {
+	case "call": // value call without calldata: the contract performs its action
+		spec := fee
+		spec.Value = 5
+		txB = c32TxPlan{spec: spec, from: c32S2, key: c32Key2, custom: true, to: &target, model: func(m *c32Model, _ uint64) int {
+			m.transfer(c32S2, addr, big.NewInt(5))
+			act(m)
+			return c32Continue
+		}}
+	case "fund": // value call with calldata: plain credit
+		spec := fee
+		spec.Value = 5
+		txB = c32TxPlan{spec: spec, from: c32S2, key: c32Key2, custom: true, to: &target, data: []byte{1}, model: func(m *c32Model, _ uint64) int {
+			m.transfer(c32S2, addr, big.NewInt(5))
+			return c32Continue
+		}}
+	default: // helper: action first, then ether is sent back to the contract in the same transaction
+		h := &c32Asm{}
+		h.call(c32AllGas, addr, big.NewInt(3))
+		h.push(0).push(0).push(1).push(0).push(4).pushAddr(addr).push(c32AllGas).op(vm.CALL, vm.POP, vm.STOP)
+		extra = types.GenesisAlloc{c32H: {Balance: big.NewInt(100), Code: h.b}}
+		txB = c32TxPlan{spec: fee, from: c32S2, key: c32Key2, custom: true, to: &c32H, model: func(m *c32Model, _ uint64) int {
+			if m.transfer(c32H, addr, big.NewInt(3)) {
+				act(m)
+			}
+			m.transfer(c32H, addr, big.NewInt(4))
+			return c32Continue
+		}}
+	}
+	exp = &c32Expect{addr: addr, codeHash: crypto.Keccak256Hash(runtime)}
+	// before Cancun a self-destructed account is deleted at the end of the transaction; from Cancun on (EIP-6780, also under
+	// Amsterdam) a contract created in an EARLIER transaction survives with code, nonce and balance
+	exp.alive = f.cancun || x.Runtime == "plain" || x.Action == "fund"
+	if x.Where == "same_block" {
+		plans = []c32BlockPlan{{txs: []c32TxPlan{txA, txB}}, {}}
+		exp.fromBlock = 0
+	} else {
+		plans = []c32BlockPlan{{txs: []c32TxPlan{txA}}, {txs: []c32TxPlan{txB}}, {}}
+		exp.fromBlock = 1
+	}
+	return plans, bCode, extra, exp
 }
 
 type c32UnclePlan struct {
@@ -523,6 +702,14 @@ func c32Plan(c c32Case) []c32BlockPlan {
 
 func c32Run(f c32Fork, units []c32Unit, seq []int, c c32Case) (outcome string, err error) {
 	plans := c32Plan(c)
+	var (
+		crossCode  []byte
+		crossAlloc types.GenesisAlloc
+		expect     *c32Expect
+	)
+	if c.Cross != nil {
+		plans, crossCode, crossAlloc, expect = c32CrossPlan(f, c)
+	}
 	// ---- genesis
 	ample := c32BigPow10(30)
 	alloc := types.GenesisAlloc{
@@ -535,6 +722,14 @@ func c32Run(f c32Fork, units []c32Unit, seq []int, c c32Case) (outcome string, e
 		c32D1: {Balance: big.NewInt(7), Code: (&c32Asm{}).op(vm.ADDRESS, vm.SELFDESTRUCT).b},
 		c32D2: {Balance: big.NewInt(7), Code: (&c32Asm{}).pushAddr(c32E).op(vm.SELFDESTRUCT).b},
 		c32D3: {Balance: big.NewInt(7), Code: (&c32Asm{}).pushAddr(c32F2).op(vm.SELFDESTRUCT).b},
+	}
+	if crossCode != nil {
+		acc := alloc[c32B]
+		acc.Code = crossCode
+		alloc[c32B] = acc
+	}
+	for a, acc := range crossAlloc {
+		alloc[a] = acc
 	}
 	if c.ExactSender {
 		// the sender owns exactly gas limit x gas price + value: its balance is zero while the transaction runs and
@@ -587,6 +782,9 @@ func c32Run(f c32Fork, units []c32Unit, seq []int, c c32Case) (outcome string, e
 			to = &c32B
 		}
 		var data []byte
+		if tp.custom {
+			to, data = tp.to, tp.data
+		}
 		if spec.DataNZ+spec.DataZ > 0 {
 			data = make([]byte, spec.DataNZ+spec.DataZ)
 			for i := 0; i < spec.DataNZ; i++ {
@@ -644,6 +842,17 @@ func c32Run(f c32Fork, units []c32Unit, seq []int, c c32Case) (outcome string, e
 		}
 		value := new(big.Int).SetUint64(tr.spec.Value)
 		status := uint64(1)
+		if tr.custom {
+			nonce := m.nonce[tr.from]
+			m.nonce[tr.from]++
+			snap := m.copy()
+			if tr.model(m, nonce) == c32Fail {
+				*m = *snap
+				status = 0
+			}
+			m.endTx()
+			return status
+		}
 		if tr.spec.Kind == "create" {
 			// the sender's nonce is consumed, then the creation runs as a frame of its own (a reverting
 			// init code leaves the endowment with the sender)
@@ -764,9 +973,21 @@ func c32Run(f c32Fork, units []c32Unit, seq []int, c c32Case) (outcome string, e
 	destroyed := new(big.Int)
 	for bi, block := range blocks {
 		mb := snaps[bi]
-		post, postTrie, err := c32TrieBalances(db, block.Root())
+		post, postTrie, accs, err := c32TrieAccounts(db, block.Root())
 		if err != nil {
 			return "", fmt.Errorf("harness: state of block %d: %v", bi+1, err)
+		}
+		if expect != nil {
+			acc, ok := accs[crypto.Keccak256Hash(expect.addr.Bytes())]
+			alive := expect.alive || bi < expect.fromBlock
+			switch {
+			case alive && !ok:
+				return "", fmt.Errorf("contract %s created by an earlier transaction is gone after block %d (model balance %s)", expect.addr.Hex(), bi+1, mb.get(expect.addr))
+			case alive && (acc.Nonce != 1 || common.BytesToHash(acc.CodeHash) != expect.codeHash):
+				return "", fmt.Errorf("contract %s after block %d has nonce %d code hash %x, expected nonce 1 code hash %x", expect.addr.Hex(), bi+1, acc.Nonce, acc.CodeHash, expect.codeHash)
+			case !alive && ok:
+				return "", fmt.Errorf("contract %s self-destructed before Cancun still exists after block %d", expect.addr.Hex(), bi+1)
+			}
 		}
 		// conservation: after - before == withdrawals + rewards - baseFee*gasUsed - blobFee*blobGas - destroyed
 		modelTotal := new(big.Int)
@@ -826,6 +1047,16 @@ func c32Run(f c32Fork, units []c32Unit, seq []int, c c32Case) (outcome string, e
 	if c.Pow != nil {
 		return "pow_uncles_" + c.Pow.Uncles, nil
 	}
+	if c.Cross != nil {
+		o := "cross_" + c.Cross.Where + "_survives"
+		if !expect.alive {
+			o = "cross_" + c.Cross.Where + "_deleted"
+		}
+		if destroyed.Sign() > 0 {
+			o += "_ether_destroyed"
+		}
+		return o, nil
+	}
 	st := "ok"
 	if firstStatus == 0 {
 		st = "failed"
@@ -879,6 +1110,8 @@ func TestVerif_C32(t *testing.T) {
 			"[fees] 10 programs x rule sets x block base fee {0,1,7,875000000} x every valid (tip, fee cap) in {0,1,7,1e9}^2, legacy prices {base, base+1, 1e9}, blob transactions (Cancun+, blob base fee > 1) x value {0,7}; [create] creation transactions with 4 init codes; " +
 			"[withdrawals] {1}, {1,3}, {0,2,5} gwei to an existing and an absent account (Shanghai+); [two] a second plain transfer from another sender in the same block; " +
 			"[zero-credit] every <=1-unit program with a sender owning exactly gas limit x price + value (refund and program credits land on a zero balance), price == base fee (coinbase stays at zero) and above; " +
+			"[cross-tx] first transaction creates a contract {creation transaction, factory CREATE, factory CREATE2} x constructor {without, with SSTORE} x endowment {0,500} x runtime {SELFDESTRUCT to self, to an EOA, plain}; " +
+			"a later transaction of the same block (and, as control, of the next block) {calls it with value (it self-destructs), calls it and then sends ether back in the same transaction, plain value call} x 7 rule sets; additionally asserted: the contract survives with nonce 1, its code and the model balance from Cancun on, is deleted before Cancun; " +
 			"[settlement] calldata {0, 4, 2000 zero, 1000, 1500+500 zero, 2000, 2500, 3000, 6000 non-zero bytes} (EIP-7623 floor 21000+10*tokens from not binding to binding) x execution {none, SSTORE set, SSTORE clear (refund), clear+set, clear+small work, " +
 			"5 clears, 5 clears + 0..3 fresh-slot SSTOREs / small work (usage before and after the refund moved across the floor), clear + value call, 5 clears + REVERT} x 7 rule sets x {dynamic fee with value, legacy with a sender owning exactly the maximal cost}; " +
 			"[rewards] proof-of-work chains of 5 blocks on 4 rule sets (frontier 5 ether, byzantium 3, berlin 2, london 2 with base fee) with uncles {none, one at depth 1 in block 3, one at depth 2 in block 4, two at depths 2+1 in block 4, two at depth 1 in block 3} x " +
@@ -969,6 +1202,29 @@ func TestVerif_C32(t *testing.T) {
 				}
 			}
 		}
+		// cross-transaction leakage: a contract created by the first transaction is acted upon by a later one
+		nCross := 0
+		for fi := range forks[:7] {
+			for _, creator := range []string{"tx", "create", "create2"} {
+				for _, store := range []bool{false, true} {
+					for _, endow := range []uint64{0, 500} {
+						for _, rt := range []string{"destruct_self", "destruct_other", "plain"} {
+							for _, action := range []string{"call", "call_then_fund", "fund"} {
+								for _, where := range []string{"same_block", "next_block"} {
+									if where == "next_block" && (store || endow == 0) {
+										continue // control cases: one variant is enough
+									}
+									add(fi, nil, c32Case{GenesisFee: 8, Insert: creator == "tx" && where == "same_block" && !store && action == "call",
+										Cross: &c32CrossSpec{Creator: creator, CtorStore: store, Endowment: endow, Runtime: rt, Action: action, Where: where}})
+									nCross++
+								}
+							}
+						}
+					}
+				}
+			}
+		}
+		r.Bound("cross_transaction_chains", nCross)
 		// gas settlement: calldata sizes around the EIP-7623 floor x executions with / without refunds and with work that moves
 		// the usage before / after the refund across the floor
 		settleExec := [][]string{{}, {"sstore_set"}, {"sstore_clear_refund"}, {"sstore_clear_refund", "sstore_set"}, {"sstore_clear_refund", "work_small"},
